@@ -208,6 +208,36 @@ pub trait Oracle {
     }
 }
 
+/// runs a second oracle alongside the main one on the same history; `keep` selects (and may re-label) the second oracle's
+/// violations that also violate the main property
+pub struct WithSecond<A: Oracle, B: Oracle> {
+    pub a: A,
+    pub b: B,
+    pub keep: fn(Violation) -> Option<Violation>,
+}
+
+impl<A: Oracle, B: Oracle> Oracle for WithSecond<A, B> {
+    fn step(&mut self, world: &World, step: &Step) -> Option<Violation> {
+        let va = self.a.step(world, step);
+        let vb = self.b.step(world, step);
+        va.or_else(|| vb.and_then(self.keep))
+    }
+    fn finish(&mut self, world: &World) -> Option<Violation> {
+        let va = self.a.finish(world);
+        let vb = self.b.finish(world);
+        va.or_else(|| vb.and_then(self.keep))
+    }
+    fn nontrivial(&self) -> bool {
+        self.a.nontrivial()
+    }
+    fn fingerprint(&self) -> u64 {
+        self.a.fingerprint()
+    }
+    fn counters(&self) -> Vec<(String, u64)> {
+        self.a.counters()
+    }
+}
+
 struct LockQueue {
     pending: VecDeque<(String, u8, UpdateOp)>,
     timeline: Vec<TL>,
